@@ -41,6 +41,31 @@ Proof.
   destruct (step nick0 true uh s a) as [s' ms]. cbn [fst] in K'.
   rewrite (Agree.Inv_agree s' _ Hs). cbn [andb]. apply IH; assumption.
 Qed.
+
+(* ---- two networks in one process: each bot only sees its own server's messages; the two bot states are separate
+        values, so a step on one network leaves the other's agreement untouched ---- *)
+Fixpoint all_agree2 (sA : srv) (bA : bot) (sB : srv) (bB : bot) (steps : list (bool * action)) : bool :=
+  match steps with
+  | [] => true
+  | (true, a) :: r => let '(sA', bA') := sim_step nick0 prefix0 true uh (sA, bA) a in
+                      agree sA' bA' && agree sB bB && all_agree2 sA' bA' sB bB r
+  | (false, a) :: r => let '(sB', bB') := sim_step nick0 prefix0 true uh (sB, bB) a in
+                       agree sA bA && agree sB' bB' && all_agree2 sA bA sB' bB' r
+  end.
+Lemma two_networks : forall steps sA bA sB bB, Inv sA bA -> skeys sA -> Inv sB bB -> skeys sB ->
+  forallb (fun wa => action_dom (snd wa)) steps = true ->
+  all_agree2 sA bA sB bB steps = true.
+Proof.
+  induction steps as [|[w a] r IH]; intros sA bA sB bB IA KA IB KB Hd; [reflexivity|].
+  cbn [forallb snd] in Hd. apply andb_true_iff in Hd as [Hp Hd]. cbn [all_agree2]. unfold sim_step. cbn [fst snd].
+  destruct w.
+  - pose proof (step_proved sA bA a IA KA Hp) as Hs. pose proof (step_skeys nick0 true uh sA a (inv_wf sA bA IA) KA) as K'.
+    destruct (step nick0 true uh sA a) as [s' ms]. cbn [fst] in K'.
+    rewrite (Agree.Inv_agree s' _ Hs), (Agree.Inv_agree sB bB IB). cbn [andb]. apply IH; assumption.
+  - pose proof (step_proved sB bB a IB KB Hp) as Hs. pose proof (step_skeys nick0 true uh sB a (inv_wf sB bB IB) KB) as K'.
+    destruct (step nick0 true uh sB a) as [s' ms]. cbn [fst] in K'.
+    rewrite (Agree.Inv_agree s' _ Hs), (Agree.Inv_agree sA bA IA). cbn [andb]. apply IH; assumption.
+Qed.
 End Trace.
 
 Lemma skeys_start nick0 u h : skeys (srv0 nick0 u h).
